@@ -39,7 +39,7 @@ var zxSelectLists = []string{
 	"COUNT(a) AS c", "COUNT(*) AS c", "COUNT(DISTINCT a) AS c", "SUM(*) AS s", "SUM() AS s", "SUM(a, b) AS s",
 	"IF(d = 'x', SUM(a)) AS x", "IF(SUM(a)) AS x", "IF(d, SUM(a), 3) AS x", "IF(1, 2) AS x",
 	"BOUNDED(a, 1, 2) AS x", "BOUNDED(a) AS x", "BOUNDED(a, 'lo', 2) AS x", "SUM(BOUNDED(a, 1, 2)) AS x",
-	"PERCENTILE(a, 99, 0, 100, 2) AS p", "PERCENTILE(a) AS p", "PERCENTILE(a, 'x', 0, 100, 2) AS p", "PERCENTILE(p, 50) AS q",
+	"PERCENTILE(a, 99, 0, 100, 2) AS p", "PERCENTILE(a) AS p", "PERCENTILE(a, 99) AS p", "PERCENTILE(a, 99, 0) AS p", "PERCENTILE(a, 99, 0, 100) AS p", "PERCENTILE(a, 99, 0, 100, 2, 7) AS p", "PERCENTILE(a, 99, 0, 100, 2) AS p, PERCENTILE(p, 50) AS q", "PERCENTILE(a, 99, 0, 100, 2) AS p, PERCENTILE(p, 50, 1) AS q", "PERCENTILE(a, 'x', 0, 100, 2) AS p", "PERCENTILE(p, 50) AS q",
 	"SHIFT(SUM(a), '-1h') AS s", "SHIFT(SUM(a)) AS s", "SHIFT(SUM(a), 5) AS s", "SHIFT(SUM(a), 'zz') AS s",
 	"CROSSHIFT(SUM(a), '-1h', '1h') AS s", "CROSSHIFT(SUM(a)) AS s", "CROSSHIFT(SUM(a), 'x', 'y') AS s", "CROSSHIFT(SUM(a), '-1h', '0s') AS s",
 	"LN(SUM(a)) AS l", "LOG2(a) AS l", "LN() AS l", "FOO(a) AS f", "FOO() AS f",
